@@ -3,9 +3,10 @@
    Implementation model: Store/C14Editor.v ([impl_exec]: pkTableEditAccumulator + tableEditor + the rowexec iterators).
    Reference model: Store/C13Refine.v ([spec_exec]: the same statements run row at a time directly on the logical table,
    a list of rows with pairwise different keys = a keyed map; [outcome] carries RowsAffected and Matched). *)
-From Coq Require Import List NArith ZArith.
+From Coq Require Import List NArith ZArith Permutation.
 Import ListNotations.
 From GMS Require Import Store.C14Editor Store.C14EditorProofs Store.C13Refine Store.C13RefineProofs.
+From GMS Require Import Store.C13Keyless Store.C13KeylessProofs Store.C13Unique Store.C13UniqueHist.
 
 (* One statement (INSERT, INSERT IGNORE, REPLACE, ON DUPLICATE KEY UPDATE, UPDATE, DELETE with WHERE / ORDER BY / LIMIT):
    outcome, counts and stored rows of the editor equal those of the reference, for every keyed table without a unique
@@ -70,3 +71,145 @@ Example C13_nonvacuous :
   stmt_in_U (key_kinds c13_sch [KInt; KInt]) c13_upd.
 Proof. exact (conj c13_bin (conj c13_pre c13_upd_typed)). Qed.
 Print Assumptions C13_nonvacuous.
+
+(* ================= keyless tables: keylessTableEditAccumulator refines the multiset reference =================
+   Reference: Store/C13Keyless.v [ms_exec] - INSERT: rows + news; DELETE: rows - targets; UPDATE: rows - changed +
+   map assign changed ("-" removes one occurrence per row), with counts |news| / |targets| / |changed|, matched = |targets|.
+   [same_step a b] = same answer (affected, matched) and Permutation of the stored rows. *)
+
+(* one statement, ANY statement of the fragment (all INSERT modes, UPDATE / DELETE with WHERE / ORDER BY / LIMIT), any
+   stored rows (duplicates included): the accumulator's cancel-out bookkeeping (Insert cancels a pending delete of an
+   equal row, Delete cancels a pending add, deleteHelper removes ONE equal row, ApplyEdits = deletes then adds) yields the
+   reference bag and the reference counts.  Premises: no unique index, integer / binary-collated columns. *)
+Theorem C13_keyless_editor_refines_multiset :
+  forall sch, keyless sch = true -> all_binary sch -> s_uniq sch = [] ->
+    forall rows st, same_step (impl_exec sch rows st) (ms_exec sch rows st).
+Proof. exact keyless_refines_multiset. Qed.
+Print Assumptions C13_keyless_editor_refines_multiset.
+
+(* the reference is a function of the BAG of stored rows (not of the listing) for statements without LIMIT *)
+Theorem C13_keyless_reference_respects_bags :
+  forall sch st L L', no_limit st -> Permutation L L' -> same_step (ms_exec sch L st) (ms_exec sch L' st).
+Proof. exact ms_respects_bags. Qed.
+Print Assumptions C13_keyless_reference_respects_bags.
+
+(* hence every history without LIMIT (induction): after each statement the answers are equal and the stored rows are
+   the reference's as a bag; the fold_left form gives the final table *)
+Theorem C13_keyless_history_refines_multiset :
+  forall sch, keyless sch = true -> all_binary sch -> s_uniq sch = [] ->
+    forall h rows, Forall no_limit h ->
+      Forall2 same_step (trace (impl_exec sch) rows h) (trace (ms_exec sch) rows h) /\
+      Permutation (run_history sch rows h) (ms_history sch rows h).
+Proof. exact keyless_history_refines_multiset. Qed.
+Print Assumptions C13_keyless_history_refines_multiset.
+
+(* every history, LIMIT included: a LIMIT on an unordered table may pick any candidates, so the reference is a relation
+   on bags ([bag_step]: some listing of the bag explains answer and new bag); the implementation's trace is a run of it *)
+Theorem C13_keyless_history_is_a_multiset_run :
+  forall sch, keyless sch = true -> all_binary sch -> s_uniq sch = [] ->
+    forall h rows, bag_run sch rows h (trace (impl_exec sch) rows h).
+Proof. exact keyless_history_is_bag_run. Qed.
+Print Assumptions C13_keyless_history_is_a_multiset_run.
+
+(* not vacuous, and listings do differ: rows (1,0),(2,0),(1,0), UPDATE t SET c0 = c0 + 1 LIMIT 2 *)
+Example C13_keyless_nonvacuous :
+  all_binary kl_sch /\
+  impl_exec kl_sch kl_rows kl_upd = (OOk 2 2, [[VInt 2; VInt 0]; [VInt 1; VInt 0]; [VInt 3; VInt 0]]) /\
+  ms_exec kl_sch kl_rows kl_upd = (OOk 2 2, [[VInt 1; VInt 0]; [VInt 2; VInt 0]; [VInt 3; VInt 0]]).
+Proof. exact (conj kl_sch_binary kl_witness). Qed.
+Print Assumptions C13_keyless_nonvacuous.
+
+(* without the collation premise the statement is false: c0 case-insensitive, rows ('a',1), ('A',2),
+   UPDATE t SET c1 = c1 + 1 ORDER BY c1 DESC stores ('A',2), ('A',3): Insert('a',2) cancels the pending Delete('A',2) *)
+Theorem C13_keyless_ci_collation_refuted :
+  exists sch rows st, keyless sch = true /\ s_uniq sch = [] /\
+    ~ Permutation (snd (impl_exec sch rows st)) (snd (ms_exec sch rows st)).
+Proof. exact kl_ci_refuted. Qed.
+Print Assumptions C13_keyless_ci_collation_refuted.
+
+(* ================= keyed tables WITH unique secondary indexes (any number, prefix lengths included) =================
+   The reference rejects a row iff the logical table holds a row with the same unique value ([sp_get_by_cols] is a
+   plain find over the logical table; NULLs never collide).  pkTableEditAccumulator.GetByCols instead gives up as soon as
+   a pending delete matches, then looks at the pending adds, then at the STORED rows (deleted ones included). *)
+
+(* INSERT, INSERT IGNORE (no pending delete can exist) and DELETE (no probe): reject-iff-duplicate, counts and stored
+   rows equal the reference's; no guard beyond the typing premises of C13_editor_refines_keyed_map *)
+Theorem C13_unique_index_insert_delete_refine_keyed_map :
+  forall sch ks, pk_binary sch ->
+    forall rows st, Pre sch (key_kinds sch ks) rows ->
+      match st with
+      | SInsert IPlain news => Forall (key_kinds sch ks) news
+      | SInsert IIgnore news => Forall (key_kinds sch ks) news
+      | SDelete _ _ _ => True
+      | _ => False
+      end ->
+      pk_exec sch rows st = spec_exec sch rows st /\ Pre sch (key_kinds sch ks) (snd (spec_exec sch rows st)).
+Proof. exact uniq_insert_delete_refines_typed. Qed.
+Print Assumptions C13_unique_index_insert_delete_refine_keyed_map.
+
+(* UPDATE (WHERE / ORDER BY / LIMIT) under the guard that excludes the GetByCols defect: the rows written by the
+   statement, in the order written, never repeat a unique value ([news_ok]: no value is freed by a delete and then taken
+   twice), and the stored rows respect the unique indexes ([urows]).  Then outcome (accepted, or rejected because a new
+   row collides with a row of the logical table), counts and stored rows equal the reference's.
+   _partial: REPLACE and ON DUPLICATE KEY UPDATE (they delete the row returned by the probe) are not covered. *)
+Theorem C13_unique_index_update_refines_keyed_map_partial :
+  forall sch ks, pk_binary sch ->
+    forall rows a w ord lim, Pre sch (key_kinds sch ks) rows -> urows sch rows ->
+      (forall r, key_kinds sch ks r -> key_kinds sch ks (apply_assigns a r)) ->
+      news_ok sch (news sch a (targets sch w ord lim rows)) ->
+      pk_exec sch rows (SUpdate a w ord lim) = spec_exec sch rows (SUpdate a w ord lim) /\
+      Pre sch (key_kinds sch ks) (snd (spec_exec sch rows (SUpdate a w ord lim))).
+Proof. exact uniq_update_refines_typed. Qed.
+Print Assumptions C13_unique_index_update_refines_keyed_map_partial.
+
+(* the guard is satisfiable and both answers occur: PRIMARY KEY(c0), UNIQUE(c1), rows (1,5), (2,6),
+   UPDATE t SET c0 = c0 + 10, c1 = c1 + 1: rejected in storage order (6 is still held by (2,6)), accepted ORDER BY c1 DESC *)
+Example C13_unique_index_update_nonvacuous :
+  pk_binary uq_sch /\ Pre uq_sch (key_kinds uq_sch [KInt]) uq_rows /\ urows uq_sch uq_rows /\
+  news_ok uq_sch (news uq_sch [(0%nat, AAdd 10); (1%nat, AAdd 1)] (targets uq_sch PTrue None None uq_rows)) /\
+  pk_exec uq_sch uq_rows uq_shift = (ODupKey, uq_rows) /\
+  pk_exec uq_sch uq_rows uq_shift_desc = (OOk 2 2, [[VInt 11; VInt 6]; [VInt 12; VInt 7]]).
+Proof.
+  exact (conj uq_bin (conj uq_pre (conj uq_urows (conj uq_news_ok
+          (conj (proj1 uq_guarded_examples) (proj1 (proj2 (proj2 uq_guarded_examples)))))))).
+Qed.
+Print Assumptions C13_unique_index_update_nonvacuous.
+
+(* without the guard the refinement is false (both recorded as findings, both inputs in the driver's corpus):
+   (1) UPDATE t SET c0 = c0 + 10, c1 = 5 on (1,5), (2,6): the value 5 freed by the pending delete of (1,5) is taken by
+       both new rows - stored (11,5), (12,5); the reference rejects;
+   (2) REPLACE INTO t VALUES (1,6),(1,7),(2,5) on (1,5): the pending delete of the stored (1,5) is overwritten by the
+       delete of the re-added (1,6); the probe for (2,5) finds the stored (1,5) again, REPLACE deletes it once more and
+       drops the pending add (1,7): stored (2,5) alone with 6 affected; reference (1,7), (2,5) with 5 affected *)
+Theorem C13_unique_index_unguarded_refuted :
+  exists sch rows st, pk_exec sch rows st <> spec_exec sch rows st.
+Proof.
+  exists uq_sch, uq_rows, uq_take. intros E.
+  rewrite (proj1 (proj1 uq_unguarded_refuted)), (proj2 (proj1 uq_unguarded_refuted)) in E. discriminate.
+Qed.
+Print Assumptions C13_unique_index_unguarded_refuted.
+
+Theorem C13_unique_index_witnesses_refuted :
+  (pk_exec uq_sch uq_rows uq_take = (OOk 2 2, [[VInt 11; VInt 5]; [VInt 12; VInt 5]]) /\
+   spec_exec uq_sch uq_rows uq_take = (ODupKey, uq_rows)) /\
+  (pk_exec uq_sch uq_stale_rows uq_stale = (OOk 6 0, [[VInt 2; VInt 5]]) /\
+   spec_exec uq_sch uq_stale_rows uq_stale = (OOk 5 0, [[VInt 1; VInt 7]; [VInt 2; VInt 5]])).
+Proof. exact uq_unguarded_refuted. Qed.
+Print Assumptions C13_unique_index_witnesses_refuted.
+
+(* the reference keeps the stored rows consistent with the unique indexes, for EVERY statement kind (REPLACE and ON
+   DUPLICATE KEY UPDATE included) and without any typing premise *)
+Theorem C13_reference_respects_unique_indexes :
+  forall sch rows st, urows sch rows -> urows sch (snd (spec_exec sch rows st)).
+Proof. exact spec_exec_urows. Qed.
+Print Assumptions C13_reference_respects_unique_indexes.
+
+(* hence histories on tables with unique indexes (induction): if every statement is an INSERT, INSERT IGNORE, DELETE or an
+   UPDATE whose guard holds on the table the reference has reached ([uq_hist_ok]), the stored rows after the history are the
+   reference's.  _partial: REPLACE / ON DUPLICATE KEY UPDATE are excluded by [uq_stmt_ok] *)
+Theorem C13_unique_index_history_refines_keyed_map_partial :
+  forall sch ks, pk_binary sch -> keyless sch = false ->
+    forall h rows, Pre sch (key_kinds sch ks) rows -> urows sch rows -> uq_hist_ok sch (key_kinds sch ks) rows h ->
+      run_history sch rows h = spec_history sch rows h.
+Proof. exact uniq_history_refines. Qed.
+Print Assumptions C13_unique_index_history_refines_keyed_map_partial.
